@@ -3259,6 +3259,18 @@ class LazyStackedTensorDict(TensorDictBase):
                     f"Batch sizes in tensordicts differs: stack has "
                     f"batch_size={batch_size}, new_value has batch_size={_batch_size}."
                 )
+            # the dim names of the stack are read from its members and must agree: an
+            # unnamed newcomer takes the names of the stack, conflicting names are refused
+            # (otherwise ``stack.names`` raises from then on)
+            names = self.tensordicts[0].names
+            _names = tensordict.names
+            if _names != names:
+                if any(name is not None for name in _names):
+                    raise ValueError(
+                        f"Dim names differ: the members of the stack have names={names}, "
+                        f"new value has names={_names}."
+                    )
+                tensordict.names = names
         else:
             batch_size = tensordict.batch_size
 
